@@ -563,14 +563,26 @@ def builders_create_fresh_handlers(ck, F, rid, SP="QtLogger::SimplePipeline", P=
         adds = [c for c in f.calls() if strip_tmpl(c.get("callee") or "") in (P + "::append", P + "::operator<<", "QtLogger::SortedPipeline::appendPipeline", "QtLogger::SortedPipeline::appendFilter",
                                                                                "QtLogger::SortedPipeline::appendAttrHandler", "QtLogger::SortedPipeline::appendSink", "QtLogger::SortedPipeline::setFormatter")
                 and c.get("args")]
+        adds_ = []
         for c in adds:
+            # a handler chosen into a local first (`FormatterPtr f; if (...) f = A::create(); else f = B::instance(); append(f);`): every value the local
+            # is given is looked at on its own
+            a_ = skip_copies(c["args"][-1])
+            while isinstance(a_, dict) and a_.get("k") in ("construct", "cast", "materialize", "bindtemp") and len([y for y in (a_.get("args") or ([a_["e"]] if isinstance(a_.get("e"), dict) else [])) if y.get("k") != "defaultarg"]) == 1:
+                a_ = skip_copies([y for y in (a_.get("args") or [a_.get("e")]) if y.get("k") != "defaultarg"][0])
+            vals_ = None
+            if isinstance(a_, dict) and a_.get("k") == "ref" and a_.get("dk") == "local" and not a_.get("static"):
+                vals_ = [v_ for v_ in _stored_values(f, a_.get("decl")) if isinstance(v_, dict) and not (skip_copies(v_).get("k") == "construct" and not [y for y in skip_copies(v_).get("args", []) if y.get("k") != "defaultarg"])]
+            for v_ in (vals_ or [c["args"][-1]]):
+                adds_.append((c, v_))
+        for c, arg_ in adds_:
             n += 1
-            o = _origin(F, f, c["args"][-1])
+            o = _origin(F, f, arg_)
             short = f.name.split("::")[-1]
             if "static" in o:
                 # a process-wide object without data members (QtLogMessageFormatter::instance()) has nothing two pipelines could race on
                 import re as _re
-                x_ = skip_copies(c["args"][-1])
+                x_ = skip_copies(arg_)
                 while isinstance(x_, dict) and x_.get("k") in ("construct", "cast", "materialize", "bindtemp") and len(x_.get("args") or ([x_["e"]] if isinstance(x_.get("e"), dict) else [])) == 1:
                     x_ = skip_copies((x_.get("args") or [x_.get("e")])[0])
                 t = (x_.get("type") if isinstance(x_, dict) else "") or ""
